@@ -1,14 +1,15 @@
 \* C10 leg A quick: worlds of <= 2 series (names n0 n1, values a b absent), matcher sets of <= 2 from
 \* 2 names x (EQ/NEQ x 3 literals + RE/NRE x {.*, .+, 2 alternations, 1 class}), every lazy choice;
-\* histories of <= 2 queries + evictions over single n0 matchers
+\* histories of <= 2 queries x 3 time ranges + evictions over single = matchers on n0 and pairs n0= , n1=
 SPECIFICATION Spec
 CONSTANTS MaxSeries = 2
           MaxMatchers = 2
           MaxHistory = 2
           Lits = {"", "a", "c"}
           MatcherNames = {"n0", "n1"}
+          HistLits = {"", "a"}
           HistNames = {"n0"}
-          HistTypes = {"EQ", "NEQ", "RE", "NRE"}
+          HistTypes = {"EQ"}
           SetAlts <- SetAltsQuick
           ClsAlts <- ClsAltsQuick
 INVARIANT C10_AnswerIsTheSelection
